@@ -1,5 +1,6 @@
 import Amqp.Typed
 import Amqp.Message
+import Amqp.FrameBody
 import Driver.Codec
 
 /-! line protocol of the typed layer: `G <cmd> …` -/
@@ -147,6 +148,15 @@ def step (ws : List String) : Option String :=
     | some s => some (s!"{s.rust} {s.code} " ++ ";".intercalate (s.fields.map (fun f =>
         f.wire ++ ":" ++ showKind f.kind ++ ":" ++ (if f.kind == .dflt then Driver.Codec.showValue f.dflt else "-"))))
     | none => some "NONE"
+  | ["frame", h] => do
+    let bs ← Driver.Frame.unhex h
+    match Amqp.FrameBody.decodeFrame env bs with
+    | .frame ch .empty => some s!"F {ch} empty"
+    | .frame ch (.transfer tv payload) => some s!"F {ch} T {showTV tv} {if payload.isEmpty then "." else Driver.Codec.hexs payload}"
+    | .frame ch (.other tv) => some s!"F {ch} O {showTV tv}"
+    | .refused => some "refused"
+    | .undecodable => some "undecodable"
+    | .panic => some "panic"
   | ["count"] => some (toString env.length)
   | _ => none
 
